@@ -2,6 +2,7 @@
 member-wise snapshot of the parent before/after, the identity of what was returned/stored, warnings, log records and
 the exception.  stdin: {"order": {cls: [field names]}, "cases": [...]}; last stdout line: JSON.
 Also imported by c09_impl.py / c11_impl.py for the shared helpers (nothing runs at import)."""
+import collections
 import io
 import json
 import logging
@@ -14,6 +15,7 @@ import neuroml.build_time_validation as btv
 import neuroml.nml.nml as nml
 
 ORDER = {}
+SEQ = (list, tuple, collections.deque)      # child collections: the model sees the sequence of components, whatever holds it
 STR_OK = {}      # id(child handed to an earlier call) -> does str() work on an equal copy
 
 
@@ -38,6 +40,10 @@ def conv(v):
         return construct(v["o"])
     if "l" in v:
         return [construct(x) for x in v["l"]]
+    if "t" in v:        # the same children held in a tuple / another sequence type: the constructors keep what they are given
+        return tuple(construct(x) for x in v["t"])
+    if "q" in v:
+        return collections.deque(construct(x) for x in v["q"])
     raise ValueError(v)
 
 
@@ -71,7 +77,7 @@ def dval(v):
         return {"i": v}
     if isinstance(v, float):
         return {"f": fstr(v)}
-    if isinstance(v, list):
+    if isinstance(v, SEQ):
         if all(hasattr(x, "member_data_items_") for x in v):
             return {"l": [dump(x) for x in v]}
         return {"raw": [str(x) for x in v]}
@@ -93,7 +99,7 @@ def idvec(o):
 def holds(o, child):
     out = []
     for k, v in vars(o).items():
-        if isinstance(v, list):
+        if isinstance(v, SEQ):
             n = sum(1 for x in v if x is child)
             if n:
                 out.append([k, n])
